@@ -23,7 +23,7 @@ SPEND = ['spend_missing', 'spend_spent', 'spend_other_fork', 'spend_same_block',
          'replayed_sig_new_outputs', 'spend_noncurve_key_output', 'spend_zero_key_forged_sig']
 VALUE = ['reward_plus_one', 'reward_plus_other_fee', 'out_zero', 'out_max_plus_one', 'outs_sum_over_max',
          'outs_exceed_inputs', 'out_2_64_minus_1', 'two_rewards', 'reward_not_first', 'reward_two_inputs',
-         'reward_real_ref', 'low_height_mint', 'outs_exceed_inputs_comp', 'reward_split_over', 'reward_prev_era']
+         'reward_real_ref', 'reward_null_ref_index', 'low_height_mint', 'outs_exceed_inputs_comp', 'reward_split_over', 'reward_prev_era']
 HEADER = ['pow_not_below', 'target_plus_1', 'target_minus_1', 'target_initial', 'target_parent_at_boundary',
           'target_elapsed_off_by_one', 'target_float', 'height_plus_2', 'height_same', 'height_low',
           'height_low_pure', 'reward_height_differs', 'ts_equal_parent', 'ts_before_parent', 'ts_now_plus_31',
@@ -555,6 +555,14 @@ def f_reward_real_ref(sim, rb, op, d, a, b):
         return False
     h = rb.height + 1
     d['reward'] = Transaction([Input(OutputReference(ref[0], ref[1]), CoinbaseData(h, b''))],
+                              [Output(rules.subsidy(h) + d['fees'], d['miner'].pk)])
+
+
+def f_reward_null_ref_index(sim, rb, op, d, a, b):
+    # the reward's input names the all-zero transaction id with an index other than 0: not the thin-air reference
+    h = rb.height + 1
+    idx = [1, 7, 255, 0x7fffffff][b % 4]
+    d['reward'] = Transaction([Input(OutputReference(ZERO32, idx), CoinbaseData(h, b''))],
                               [Output(rules.subsidy(h) + d['fees'], d['miner'].pk)])
 
 
